@@ -164,6 +164,18 @@ CLAIMED = {
              "(false for some parameters) and is left to the run-time guards, whose call sites are fingerprinted and which are exercised on the real object; getSfuncFixedPerpSpacing's "
              "interpolation s_of_sperp is not modelled (covered by the regrid / corpus oracles).",
         technique="Coq proof (Coquelicot) on translated closed forms + differential oracle on the real constructors + grid oracle", design="6/C10"),
+    "C19": dict(
+        text="Coq theorems: (R, Coquelicot) the matrix find_critical inverts is the Jacobian of the residual (Br, Bz) (REGENERATED expressions) and an accepted point has |grad psi|^2 < "
+             "atol R^2; for ANY quadratic flux function on ANY uniform grid (critical point at arbitrary sub-grid position) the REGENERATED finite-difference discriminant equals the Hessian "
+             "determinant.  (Q, computable hand model of the post-processing, loop / thresholds / sort keys checked by exact-form translator checks) remove_dup returns every candidate exactly "
+             "once (separation, coverage, no invention); O-points are a sorted permutation by distance from the domain centre (primary = nearest); X-points are the filtered distinct candidates "
+             "sorted by (psi - psi_axis)^2; makeRegions keeps exactly the X-points below psinorm_sol and inside the wall in order; 1 -> single null, 2 -> double null, else refused.  "
+             "Correspondence: a Python twin of the candidate search evaluating the translated Newton step feeds the candidate lists to the model (vm_compute); result = find_critical's.  Oracle: "
+             "random sums of Gaussians (tilted, sub-grid positions, 4 resolutions, both signs) against an independent multi-start Newton on the analytic function; TokamakEquilibrium objects "
+             "with psinorm_sol either side of the secondary X-point and a wall that excludes an X-point.",
+        note="Trusted: Coq kernel (+ Reals axioms for the first two theorems); FITPACK evaluators; translator.  Completeness of the candidate search (grid minima of Bp^2 + Newton "
+             "convergence) is observed on the sampled functions, not proved; the monotonicity filter is modelled (keep_xpoint) and compared, its geometric meaning is not a theorem.",
+        technique="Coq proofs on translated expressions and a computable hand model + vm_compute correspondence + independent-solver oracle", design="6/C19"),
 }
 
 PENDING = ["C01", "C03", "C04", "C05", "C06", "C07", "C08", "C09", "C10", "C11", "C12", "C13", "C14", "C15", "C16", "C17", "C18", "C19", "C20"]
